@@ -229,7 +229,21 @@ class Interp(Ops):
             xt = term_of(x)
             if container.elem[0] in ("opaque", "func") and isinstance(x, VStr):
                 xt = z3.Function("box_str", z3.StringSort(), Opaque)(x.term)   # a str among arbitrary objects
-            return z3.Contains(self.st.heap[(container.ref, "seq")], z3.Unit(xt))
+            sq = self.st.heap[(container.ref, "seq")]
+            b = z3.Contains(sq, z3.Unit(xt))
+            cc = getattr(self, "current_contract", None)
+            if cc is not None and getattr(cc, "seq_lemmas", False) and not self.spec_mode:
+                # membership stated element-wise as well (Skolem witness / universal negation): theorems of seq.contains
+                w = self.st.fresh("where", z3.IntSort())
+                j = z3.Int(self.st.fresh_name("j"))
+                self.st.assume(z3.Implies(b, z3.And(w >= 0, w < z3.Length(sq), sq[w] == xt)))
+                self.st.assume(z3.Implies(z3.Not(b), z3.ForAll([j], z3.Implies(z3.And(j >= 0, j < z3.Length(sq)), sq[j] != xt), patterns=[sq[j]])))
+            return b
+        if getattr(container, "kind", "") == "iter" and getattr(container, "what", "") == "values" and isinstance(container.base, VMap):
+            m = container.base
+            k = z3.Const(self.st.fresh_name("k"), sort_of_type(m.key))
+            return z3.Exists([k], z3.And(z3.Select(self.st.heap[(m.ref, "dom")], k),
+                                         z3.Select(self.st.heap[(m.ref, "val")], k) == term_of(x)))
         if isinstance(container, VStr) and isinstance(x, VStr):
             return z3.Contains(container.term, x.term)
         if getattr(container, "kind", "") == "bytearray" and isinstance(x, VBytes):
@@ -808,7 +822,66 @@ class Interp(Ops):
 
     # ------------------------------------------------------------------ comprehensions (concrete iterables)
     def e_ListComp(self, e, fr):
+        sym = self.symbolic_comp(e, fr, "list")
+        if sym is not None:
+            return sym
         return self.new_list(self.comp(e, fr))
+
+    def symbolic_comp(self, e, fr, kind):
+        """[elt for x in <symbolic collection>] / {k: v for x in <symbolic collection>} used as a VALUE: executed as the loop
+        `acc = []; for x in it: acc.append(elt)` under a sidecar invariant keyed by the comprehension's source text
+        (loops={"comp <source>": LoopInv(..., ghost={"acc": <type of the result>})}); the accumulator is `__comp`"""
+        if len(e.generators) != 1 or e.generators[0].is_async:
+            return None
+        g = e.generators[0]
+        it = self.eval(g.iter, fr)
+        try:
+            self.iterate(it)
+            return None               # concrete iterable: ordinary evaluation
+        except Unsupported:
+            pass
+        c = self.current_contract
+        key = "comp " + ast.unparse(e)
+        inv = c.loops.get(key) if c is not None else None
+        if inv is None and c is not None:
+            # the same comprehension with a changed filter: still the sidecar's loop (its invariant decides)
+            head = ast.unparse(e)
+            head = head[:head.index(" for ")] + " for " + ast.unparse(g.target) + " in " + ast.unparse(g.iter)
+            cands = [k for k in c.loops if isinstance(k, str) and k.startswith("comp " + head)]
+            if len(cands) == 1:
+                key = cands[0]
+                inv = c.loops[key]
+        if inv is None:
+            raise Unsupported(f"comprehension over a symbolic collection needs an invariant in the sidecar: loops[{key!r}]")
+        acc_t = inv.ghost.get("acc")
+        if acc_t is None:
+            raise Unsupported(f"{key}: ghost['acc'] (type of the result) missing")
+        from .tys import mk_sym
+        t = self.tenv.parse(acc_t)
+        acc = mk_sym(self.st, self.tenv, t, self.st.fresh_name("__comp"))
+        if isinstance(acc, VSeq):
+            self.st.heap[(acc.ref, "seq")] = z3.Empty(self.st.heap[(acc.ref, "seq")].sort())
+        elif isinstance(acc, VMap):
+            self.st.heap[(acc.ref, "dom")] = z3.K(self.st.heap[(acc.ref, "dom")].sort().domain(), z3.BoolVal(False))
+        else:
+            raise Unsupported(f"{key}: accumulator type {acc_t}")
+        fr.vars["__comp"] = acc
+        name = ast.Name(id="__comp", ctx=ast.Load())
+        if kind == "list":
+            body = ast.Expr(value=ast.Call(func=ast.Attribute(value=name, attr="append", ctx=ast.Load()), args=[e.elt], keywords=[]))
+        else:
+            body = ast.Assign(targets=[ast.Subscript(value=name, slice=e.key, ctx=ast.Store())], value=e.value)
+        if g.ifs:
+            test = g.ifs[0] if len(g.ifs) == 1 else ast.BoolOp(op=ast.And(), values=list(g.ifs))
+            body = ast.If(test=test, body=[body], orelse=[])
+        loop = ast.For(target=g.target, iter=g.iter, body=[body], orelse=[])
+        ast.copy_location(loop, e)
+        ast.fix_missing_locations(loop)
+        loop._comp_src = ast.unparse(e)
+        loop._comp_id = id(e)
+        loop._comp_key = key
+        self.symbolic_loop(loop, fr, it)
+        return fr.vars["__comp"]
 
     def e_GeneratorExp(self, e, fr):
         if len(e.generators) == 1 and isinstance(e.generators[0].target, ast.Name):
@@ -856,6 +929,10 @@ class Interp(Ops):
         return out
 
     def e_DictComp(self, e, fr):
+        if len(e.generators) == 1 and isinstance(e.generators[0].target, ast.Name):
+            sym = self.symbolic_comp(e, fr, "dict")
+            if sym is not None:
+                return sym
         if len(e.generators) == 1 and isinstance(e.generators[0].target, ast.Tuple) \
                 and len(e.generators[0].target.elts) == 2 and isinstance(e.key, ast.Name) and isinstance(e.value, ast.Name):
             g = e.generators[0]
@@ -1227,12 +1304,15 @@ class Interp(Ops):
         self.call_depth += 1
         if self.call_depth > 30:
             raise Unsupported("call depth")
+        caller_frame = self.cur_frame
         try:
             self.exec_block(finfo.node.body, fr)
         except _Return as r:
             return r.value
         finally:
             self.call_depth -= 1
+            if self.call_depth > 0 and caller_frame is not None:
+                self.cur_frame = caller_frame      # back in the caller: local(...) in clauses means ITS locals again
         return VNone
 
     # ================================================================== statements
